@@ -507,6 +507,17 @@ class C13(LockCheck):
                 'CppUtil.Props.c13_cas_from_noX', 'CppUtil.WLock.opt_specs']
     categories = ['prepare']
 
+    def relevant_failure(self, r):
+        msg = super().relevant_failure(r)
+        if msg:
+            return msg
+        # "a non-owning guard ... behaves exactly like an optimistic guard": validation results of composite guards
+        if r['mon'].startswith('FAIL'):
+            for m in r['mon'][5:].split(' || '):
+                if m.startswith('version') and '[composite guard]' in m:
+                    return m
+        return None
+
 
 class C11(LockCheck):
     lean_module = 'CppUtil.Props.C11'
@@ -687,10 +698,35 @@ class ThreadCheck(LockCheck):
         sig = finding.get('signature_substring')
         return bool(sig) and sig in viol.get('msg', '')
 
+    def search_bigcap(self):
+        """the property quantifies over every capacity: full-house histories at capacities around the word sizes of a
+        packed flag array (only in the search for a failing input - 40 to 70 threads per scenario)"""
+        if 'id' not in self.kinds:
+            return None
+        import random as _r
+        for cap in (33, 64, 70):
+            try:
+                exe = common.build_harness('thread', nthread=cap)
+            except FrameworkError:
+                return None
+            rng = _r.Random(f'bigcap-{self.seed}-{cap}')
+            scen = {f'big{cap}-{i}': gen_thread.bigcap_scenario(rng, f'big{cap}-{i}', cap) for i in range(6)}
+            results, _ = common.run_scenarios(exe, list(scen.values()))
+            for sid in sorted(results):
+                msg = self.relevant_failure(results[sid])
+                if msg and not self.finding_matches({'msg': msg}):
+                    w = self.make_witness(exe, scen[sid], msg)
+                    w['capacity'] = cap
+                    return w
+        return None
+
     def search(self):
         exes = getattr(self, 'exes', None)
         if not exes:
             return None
+        w = self.search_bigcap()
+        if w:
+            return w
         for k in range(1, 4):
             for cap in self.caps:
                 scen = {s_.split()[1]: s_ for s_ in gen_thread.make_scenarios(self.seed * 1000 + k, 500, f's{cap}-', cap,
@@ -753,7 +789,7 @@ class C05(ThreadCheck):
 class C14(ThreadCheck):
     caps = [2, 3, 6]
     lean_module = 'CppUtil.Props.C14'
-    theorems = ['CppUtil.Props.c14_all_exited_all_free', 'CppUtil.Props.c14_flag_has_holder', 'CppUtil.Props.c14_solo_claim_succeeds', 'CppUtil.Props.c14_release_clears']
+    theorems = ['CppUtil.Props.c14_accessors_as_modelled', 'CppUtil.Props.c14_all_exited_all_free', 'CppUtil.Props.c14_flag_has_holder', 'CppUtil.Props.c14_solo_claim_succeeds', 'CppUtil.Props.c14_release_clears']
     categories = ['idleak']
     stuck_relevant = True
     kinds = ('id', 'id', 'epoch')
@@ -911,7 +947,7 @@ class ZipfCheck(Check):
                 cases.append(json.load(open(os.path.join(d, fn))))
         cases += g.grid_cases(f'z{self.seed}-')
         cases += [g.pick_case(f'z{self.seed}-{i}') for i in range(self.counts[self.tier])]
-        throws = [g.throw_case(f'zt{self.seed}-{i}') for i in range(12)]
+        throws = g.throw_grid(f'z{self.seed}-') + [g.throw_case(f'zt{self.seed}-{i}') for i in range(24)]
         results, stats, texts = self.run_cases(exe, g, cases, throws)
         failures, mismatches = [], []
         ok_count = 0
